@@ -342,8 +342,11 @@ def literal_pair(rng, dg, dump):
     return da, db, "literal-" + how, probes
 
 
-def normalize_titles(doc):
-    """Compare serializations as JSON Schemas, not as Python objects: member order of objects is immaterial,
+def normalize_titles(doc, merge=False):
+    """(`merge`: for trees that share one class object between several positions, compared with trees holding equal classes of
+    their own there - "sharing one class between equal object schemas never changes meaning" - definitions that are the same
+    document up to names count once.)
+    Compare serializations as JSON Schemas, not as Python objects: member order of objects is immaterial,
     numbers compare by value (2 == 2.0, but true != 1), `required` is a set; class names are not part of
     equality, so titles / $ref targets are blanked."""
     if isinstance(doc, bool) or doc is None or isinstance(doc, str):
@@ -363,12 +366,13 @@ def normalize_titles(doc):
             if k == "$ref" and isinstance(v, str):
                 out[k] = "#/definitions/*"
             elif k == "definitions" and isinstance(v, dict):
-                out[k] = sorted(json.dumps(normalize_titles(x), sort_keys=True, default=str) for x in v.values())
+                defs = [json.dumps(normalize_titles(x, merge), sort_keys=True, default=str) for x in v.values()]
+                out[k] = sorted(set(defs) if merge else defs)
             else:
-                out[k] = normalize_titles(v)
+                out[k] = normalize_titles(v, merge)
         return out
     if isinstance(doc, list):
-        return [normalize_titles(v) for v in doc]
+        return [normalize_titles(v, merge) for v in doc]
     return doc
 
 
@@ -464,6 +468,14 @@ def only_multipleof_spelling(a, b):
     return bool(diffs) and all(diffs)
 
 
+def without_class_names(d):
+    if isinstance(d, dict):
+        return {k: ("" if k == "name" and d.get("cls") == "Object" else without_class_names(v)) for k, v in d.items()}
+    if isinstance(d, list):
+        return [without_class_names(v) for v in d]
+    return d
+
+
 def model_verdicts(drv, dump, el, v):
     """the Lean model's verdict for one call (None when the driver cannot say)"""
     try:
@@ -489,9 +501,56 @@ def has_multiple_of(d):
     return False
 
 
-def check_pair(drv, da, db, kind, values, out, stats, built=None, extra=None, served_first=False):
+def build_aliased(dump, groups):
+    """the real tree of `dump` in which, for every group of paths, ONE element object sits at all the paths of the group
+    (the sub-dumps there are equal, so the tree has the very same dump as an independent build)"""
+    cache = {}
+    for group in groups or []:
+        subs = [get(dump, p) for p in group]
+        if any(json.dumps(x, sort_keys=True) != json.dumps(subs[0], sort_keys=True) for x in subs):
+            raise ValueError("aliased positions hold different sub-trees")
+        shared = dsl.build(subs[0])
+        for x in subs:
+            cache[id(x)] = shared
+    return dsl.build(dump, cache)
+
+
+def repeated_objects(el):
+    """how many element objects occupy more than one position of the real tree (walks the attributes `==` looks at)"""
+    from statham.schema.elements import Element as _El
+    from statham.schema.property import _Property as _Pr
+    seen = {}
+
+    def walk(x, depth=0):
+        if depth > 40:
+            return
+        if isinstance(x, _Pr):
+            walk(x.element, depth + 1)
+        elif isinstance(x, _El):
+            seen[id(x)] = seen.get(id(x), 0) + 1
+            if seen[id(x)] > 1:
+                return
+            for k, v in list(vars(x).items()):
+                if not k.startswith("_") or k == "_properties":
+                    walk(v, depth + 1)
+        elif isinstance(x, dict):
+            for v in list(x.values()):
+                walk(v, depth + 1)
+        elif isinstance(x, (list, tuple)):
+            for v in x:
+                walk(v, depth + 1)
+    walk(el)
+    return sum(1 for n in seen.values() if n > 1)
+
+
+def check_pair(drv, da, db, kind, values, out, stats, built=None, extra=None, served_first=False, alias=None):
     try:
-        a, b = built if built is not None else (dsl.build(da), dsl.build(db))
+        if built is not None:
+            a, b = built
+        elif alias:
+            a, b = build_aliased(da, alias.get("a")), build_aliased(db, alias.get("b"))
+        else:
+            a, b = dsl.build(da), dsl.build(db)
     except Exception as exc:  # noqa: BLE001
         stats["unbuildable-" + type(exc).__name__] = stats.get("unbuildable-" + type(exc).__name__, 0) + 1
         return
@@ -511,6 +570,12 @@ def check_pair(drv, da, db, kind, values, out, stats, built=None, extra=None, se
     case = {"a": da, "b": db, "mutation": kind, **(extra or {})}
     if served_first:
         case["first_serialized_before_comparison"] = True
+    if alias:
+        case["alias"] = {side: [[list(p) for p in g] for g in groups] for side, groups in alias.items() if groups}
+        for side, el in (("a", a), ("b", b)):
+            if alias.get(side):
+                key = "aliased-side-%s-really-shares-an-object" % side if repeated_objects(el) else "aliased-side-%s-NOT-shared" % side
+                stats[key] = stats.get(key, 0) + 1
     out.note_case(case, kind != "identical")
     stats["pairs-" + kind] = stats.get("pairs-" + kind, 0) + 1
     stats["equal" if real["eq"] else "unequal"] = stats.get("equal" if real["eq"] else "unequal", 0) + 1
@@ -527,7 +592,7 @@ def check_pair(drv, da, db, kind, values, out, stats, built=None, extra=None, se
     if real["eq"] != real["eq_rev"]:
         out.failures.append({"case": case, "what": f"equality is not symmetric: a==b is {real['eq']}, b==a is {real['eq_rev']}", "finding": None})
         return
-    if kind == "identical" and not real["eq"]:
+    if (kind == "identical" or kind.endswith("all-equal")) and not real["eq"]:
         out.failures.append({"case": case, "what": "independently built copies of one schema are not equal", "finding": None})
         return
     if not real["eq"]:
@@ -542,8 +607,11 @@ def check_pair(drv, da, db, kind, values, out, stats, built=None, extra=None, se
                                              "what": f"two trees that are the same up to attribute and class names disagree on a value: {ra['r']} vs {rb['r']}"})
                         return
         return
-    region = "C17-bool-number-literals" if kind in ("lookalike",) or has_bool_num_confusion(da, db) else None
-    spelling = region is None and only_multipleof_spelling(da, db)
+    # (aliased family: the side with elements of its own carries class names of its own - names are not part of equality and
+    # are no difference between the trees as far as the regions of the listed findings go)
+    ra_, rb_ = (without_class_names(da), without_class_names(db)) if alias else (da, db)
+    region = "C17-bool-number-literals" if kind in ("lookalike",) or has_bool_num_confusion(ra_, rb_) else None
+    spelling = region is None and only_multipleof_spelling(ra_, rb_)
     if has_multiple_of(da) or has_multiple_of(db):
         # integers no double represents: exact `%` and the floating-point quotient part ways there
         values = list(values) + BIG_ODD + [{"a": BIG_ODD[0]}, [BIG_ODD[1]]]
@@ -571,9 +639,106 @@ def check_pair(drv, da, db, kind, values, out, stats, built=None, extra=None, se
         ja, jb = serialize_json(a), serialize_json(b)
     except TypeError:
         return
-    if repr(normalize_titles(_plain(ja))) != repr(normalize_titles(_plain(jb))):
+    merge = bool(alias)
+    if repr(normalize_titles(_plain(ja), merge)) != repr(normalize_titles(_plain(jb), merge)):
         out.failures.append({"case": case, "what": "equal elements serialize to different JSON Schemas", "finding": region if agree else ("C17-number-spelling" if False else None)})
         stats["oracle-fail-serialize"] = stats.get("oracle-fail-serialize", 0) + 1
+        return
+    # "replacing an element by a reference to an equal definition never changes meaning": put each of the two equal elements at
+    # the same place of one wrapper and serialize next to the same `definitions`, which hold an element equal to both (the first,
+    # then the second, of the pair).  Whichever of the two sits in the tree, the document must be the same JSON Schema.
+    from statham.schema.elements import Array as _Arr, Element as _El
+    from statham.schema.property import Property as _P
+    for which, defn in (("first", a), ("second", b)):
+        for wrap_name, wrap in (("array items", lambda e: _Arr(e, minItems=1)), ("property", lambda e: _El(properties={"thing": _P(e)}))):
+            try:
+                wa = serialize_json(wrap(a), definitions={"shared_def": defn})
+                wb = serialize_json(wrap(b), definitions={"shared_def": defn})
+            except TypeError:
+                stats["with-definitions-unserializable"] = stats.get("with-definitions-unserializable", 0) + 1
+                continue
+            stats["equal-pairs-serialized-next-to-an-equal-definition"] = stats.get("equal-pairs-serialized-next-to-an-equal-definition", 0) + 1
+            if _plain(ja) != _plain(jb) or repr(a) != repr(b):
+                stats["...of-which-spelled-differently"] = stats.get("...of-which-spelled-differently", 0) + 1
+            if repr(normalize_titles(_plain(wa), merge)) != repr(normalize_titles(_plain(wb), merge)):
+                out.failures.append({"case": case, "finding": None,
+                                     "what": f"equal elements, put in the same place ({wrap_name}) and serialized with the same definitions (holding the {which} "
+                                             f"of the two), give different JSON Schemas: {json.dumps(_plain(wa), sort_keys=True, default=str)[:300]} vs "
+                                             f"{json.dumps(_plain(wb), sort_keys=True, default=str)[:300]}"})
+                stats["oracle-fail-serialize-with-definitions"] = stats.get("oracle-fail-serialize-with-definitions", 0) + 1
+                return
+
+
+ALIAS_SHAPES = ["props", "props", "class-props", "tuple", "composition", "patProps", "items+contains", "nested", "deps+addProps"]
+
+
+def aliased_pair(rng, dg):
+    """(da, db, kind, alias): a container in which ONE element object occupies 2-3 positions (what `shared = String(...)` used
+    twice gives, and what the parser's de-duplication gives for equal sub-schemas), against a container of the same shape whose
+    positions hold elements of their own - all equal to the shared one, or one of them (the first, or a later one) mutated at a
+    single point.  Either side may be the aliased one; in the all-equal case both may be."""
+    sub = unique_class_names(dg.dump(rng.choice([0, 1, 1, 2])))
+    n = rng.choice([2, 2, 3])
+    shape = rng.choice(ALIAS_SHAPES)
+    if shape in ("items+contains", "deps+addProps"):
+        n = 2
+    names = ["a", "b", "c"]
+
+    def container(subs):
+        if shape == "props":
+            return {"cls": "Element", "kw": {"hasProps": True}, "props": [[{"name": names[i], "source": names[i]}, x] for i, x in enumerate(subs)]}
+        if shape == "class-props":
+            return {"cls": "Object", "name": "Holder", "kw": {"hasProps": True},
+                    "props": [[{"name": names[i], "source": names[i]}, x] for i, x in enumerate(subs)]}
+        if shape == "tuple":
+            return {"cls": tuple_cls, "kw": {"itemsKind": "tuple"}, "items": list(subs)}
+        if shape == "composition":
+            return {"cls": comp_cls, "kw": {}, "elements": list(subs)}
+        if shape == "patProps":
+            return {"cls": "Element", "kw": {"hasPatProps": True}, "patProps": [[{"name": "^" + names[i]}, x] for i, x in enumerate(subs)]}
+        if shape == "items+contains":
+            return {"cls": "Array", "kw": {"itemsKind": "single"}, "items": [subs[0]], "contains": subs[1]}
+        if shape == "deps+addProps":
+            return {"cls": "Element", "kw": {"hasDeps": True}, "deps": [[{"name": "a"}, subs[0]]], "addProps": subs[1]}
+        inner = {"cls": "Array", "kw": {"itemsKind": "single"}, "items": [subs[1]]}
+        rest = [[{"name": names[i], "source": names[i]}, x] for i, x in enumerate(subs) if i >= 2]
+        return {"cls": "Element", "kw": {"hasProps": True}, "props": [[{"name": "a", "source": "a"}, subs[0]], [{"name": "b", "source": "b"}, inner]] + rest}
+    tuple_cls, comp_cls = rng.choice(["Array", "Element"]), rng.choice(["AnyOf", "OneOf", "AllOf"])
+    if shape in ("props", "class-props"):
+        paths = [["props", i, 1] for i in range(n)]
+    elif shape == "tuple":
+        paths = [["items", i] for i in range(n)]
+    elif shape == "composition":
+        paths = [["elements", i] for i in range(n)]
+    elif shape == "patProps":
+        paths = [["patProps", i, 1] for i in range(n)]
+    elif shape == "items+contains":
+        paths = [["items", 0], ["contains"]]
+    elif shape == "deps+addProps":
+        paths = [["deps", 0, 1], ["addProps"]]
+    else:
+        paths = [["props", 0, 1], ["props", 1, 1, "items", 0]] + [["props", i, 1] for i in range(2, n)]
+    da = container([copy.deepcopy(sub) for _ in range(n)])
+    where = rng.choice([None, 0] + list(range(1, n)) * 2)       # which occurrence differs on the other side (None: none)
+    kind = "same"
+    mutated = None
+    if where is not None:
+        mutated, kind = mutate(rng, sub, dg)
+    b_shared = [i for i in range(n) if i != where] if rng.random() < 0.4 else []
+    if len(b_shared) < 2:
+        b_shared = []
+    subs_b = []
+    for i in range(n):
+        x = copy.deepcopy(mutated if i == where else sub)
+        if i not in b_shared:
+            unique_class_names(x, [100 * (i + 1)])          # a class of its own under a name of its own
+        subs_b.append(x)
+    db = container(subs_b)
+    alias = {"a": [paths], "b": [[paths[i] for i in b_shared]] if b_shared else []}
+    label = "aliased-vs-" + ("all-equal" if where is None else "first-occurrence-mutated" if where == 0 else "later-occurrence-mutated")
+    if rng.random() < 0.5:
+        da, db, alias = db, da, {"a": alias["b"], "b": alias["a"]}
+    return da, db, label, alias, shape, kind
 
 
 def inherited_table():
@@ -625,6 +790,10 @@ def run(ctx, scale=1.0):
                 "pairs differing in the structure of one const / default / enum literal (object member or array element added, dropped, changed, "
                 "reordered; empty array vs empty object) and pairs where one keyword is absent on one side and empty or falsy on the other "
                 "(const, default, enum, items, required, properties, patternProperties, dependencies); "
+                "trees in which ONE element object occupies 2-3 positions (properties of an element / of a class, tuple items, composition "
+                "members, patternProperties, items+contains, dependencies+additionalProperties, nested) against trees of the same shape built "
+                "from independent elements, all equal or one occurrence (first / later) mutated at a single point, either side aliased; "
+                "every equal pair also serialized inside one wrapper (array items, property) next to `definitions` holding an equal element; "
                 "a case is one pair; non-trivial = mutated; distinct by SHA-256")
     stats = {}
     drv = core.Driver()
@@ -742,6 +911,19 @@ def run(ctx, scale=1.0):
             stats["literal-structure-pairs"] = stats.get("literal-structure-pairs", 0) + 1
             check_pair(drv, da, db, kind, probes + vg.values(dump_to_schema(da), 4) + [1, "a", None, [], {}, [1], {"a": 1}], out, stats,
                        served_first=(i % 7 == 3))
+        # trees in which one element object occupies several positions (aliasing inside a tree), against trees of the same shape
+        # built from independent elements that are equal to it everywhere, or differ at one occurrence
+        for i in range(int(220 * scale)):
+            da, db, kind, alias, shape, mutation = aliased_pair(rng, dg)
+            stats["aliased-tree-pairs"] = stats.get("aliased-tree-pairs", 0) + 1
+            stats["aliased-shape-" + shape] = stats.get("aliased-shape-" + shape, 0) + 1
+            stats["aliased-occurrence-mutation-" + mutation] = stats.get("aliased-occurrence-mutation-" + mutation, 0) + 1
+            try:
+                vals = vg.values(dump_to_schema(da), 4) + vg.values(dump_to_schema(db), 3)
+            except Exception:  # noqa: BLE001
+                vals = []
+            check_pair(drv, da, db, kind, vals + [1, "a", None, [], {}, [1, "a"], ["a", 1], {"a": 1}, {"a": "x", "b": "much too long"}, {"b": 1}],
+                       out, stats, alias=alias, served_first=(i % 9 == 4))
         # the shape of the recorded finding, and its consequence through de-duplication
         check_pair(drv, {"cls": "Element", "kw": {"const": True}}, {"cls": "Element", "kw": {"const": {"i": "1"}}}, "lookalike",
                    [True, 1, 1.0, 0], out, stats)
@@ -772,7 +954,7 @@ def _replay_case(case):
             built = build_inherited(*case["inherited"])
             vals = vals + INHERITED_VALUES
         check_pair(drv, case["a"], case["b"], case.get("mutation", "replay"), vals, out, stats, built=built,
-                   served_first=bool(case.get("first_serialized_before_comparison")))
+                   served_first=bool(case.get("first_serialized_before_comparison")), alias=case.get("alias"))
     finally:
         drv.close()
     return out
